@@ -22,6 +22,10 @@ pub enum FailKind {
     CrossWarpWrite,
     ApplyErrorMissingEdge,
     ApplyErrorNodeNotIsolated,
+    /// every program is honest; the pass runs against a provenance service that lags the
+    /// runtime (a clone taken before an earlier pass), so the append of the first head whose
+    /// worldline lags is refused AFTER the engine committed that head
+    ProvenanceRefusesAppend,
 }
 
 #[derive(Clone, Debug, Serialize, Deserialize)]
@@ -59,6 +63,8 @@ fn case9() -> impl Strategy<Value = Case9> {
             Just(FailKind::CrossWarpWrite),
             Just(FailKind::ApplyErrorMissingEdge),
             Just(FailKind::ApplyErrorNodeNotIsolated),
+            Just(FailKind::ProvenanceRefusesAppend),
+            Just(FailKind::ProvenanceRefusesAppend),
         ],
         prop::collection::vec(subs_vec(4), 1..3),
         any::<bool>(),
@@ -116,6 +122,7 @@ fn failing_prog(w: &World, wl: u8, kind: &FailKind) -> Prog {
             let e = (0..N_EDGES).find(|e| !st.warps[&0].edges.contains_key(e)).unwrap_or(0);
             (vec![Instr::DeleteEdge { e, from: root }], true)
         }
+        FailKind::ProvenanceRefusesAppend => (vec![Instr::ReadNode(root)], true),
         FailKind::ApplyErrorNodeNotIsolated => {
             // a node with an incident edge, deleted without deleting the edge
             let n = st.warps[&0].edges.values().map(|r| r.from).next();
@@ -174,7 +181,90 @@ fn check_ok_pass(w: &mut World, what: &str) -> Check {
     }
 }
 
+/// The commit of one head fails after the engine has committed it: the provenance service the
+/// pass runs against refuses the append (it lags the runtime by at least one tick on that
+/// worldline). Everything the pass did - to the runtime and to that service - must be undone.
+fn check9_stale_provenance(c: &Case9, probe: &mut Probe) -> Check {
+    let mut w = build_world(&c.world);
+    let mut clones: Vec<warp_core::ProvenanceService> = Vec::new();
+    for (i, subs) in c.warmup.iter().enumerate() {
+        clones.push(w.provenance.clone());
+        submit_all(&mut w, &c.world, subs, 100 * i as u32, c.ticketed);
+        check_ok_pass(&mut w, &format!("warm-up pass {i}"))?;
+    }
+    submit_all(&mut w, &c.world, &c.honest, 5000, c.ticketed);
+    let order = expected_committers(&w);
+    // the latest clone in which a runnable head's worldline lags
+    let lagging = |p: &warp_core::ProvenanceService, w: &World, k: &WriterHeadKey| -> bool {
+        let wl = wl_ix(&k.worldline_id).expect("known worldline");
+        p.len(k.worldline_id).unwrap_or(0) < w.len(wl)
+    };
+    let Some(mut stale) = clones.into_iter().rev().find(|p| order.iter().any(|k| lagging(p, &w, k))) else {
+        probe.class("no-lagging-service(nothing committed in warm-up or nothing runnable)");
+        return Ok(());
+    };
+    let pos = order.iter().position(|k| lagging(&stale, &w, k)).expect("some head lags");
+    let fkey = order[pos];
+    let rt_before = fields(&format!("{:#?}", w.runtime));
+    let pv_before = format!("{:#?}", stale);
+    let pending_before: BTreeMap<WriterHeadKey, usize> = w.runtime.heads().iter().map(|(k, h)| (*k, h.inbox().pending_count())).collect();
+    let fps_before: Vec<StateFp> = (0..w.n_wl() as u8).map(|wl| state_fp(w.frontier(wl))).collect();
+    let faults_before = w.runtime.scheduler_fault_count();
+    std::mem::swap(&mut w.provenance, &mut stale);
+    let outcome = w.pass();
+    std::mem::swap(&mut w.provenance, &mut stale);
+    // `stale` is again the lagging service (as the pass left it); w.provenance the real one
+    match &outcome {
+        PassOutcome::Ok(recs) => vfail!("C09/failing-commit-reported-success/ProvenanceRefusesAppend", "pass whose head at position {pos} of {} cannot be appended returned Ok({} records)", order.len(), recs.len()),
+        PassOutcome::Panic(m) => vfail!("C09/typed-error-surfaced-as-panic", "ProvenanceRefusesAppend: {m}"),
+        PassOutcome::Err(_) => {}
+    }
+    let rt_after = fields(&format!("{:#?}", w.runtime));
+    for (k, v) in &rt_before {
+        if FAULT_EVIDENCE.contains(&k.as_str()) {
+            continue;
+        }
+        if rt_after.get(k) != Some(v) {
+            vfail!(format!("C09/failed-pass-left-effect/runtime.{k}"), "field `{k}` of WorldlineRuntime differs after a failed pass (append refused for the head at position {pos} of {}, worldline {:?})", order.len(), wl_ix(&fkey.worldline_id));
+        }
+    }
+    if format!("{:#?}", stale) != pv_before {
+        vfail!("C09/failed-pass-left-effect/provenance", "the provenance service the pass ran against differs after the failed pass (append refused at position {pos})");
+    }
+    for (k, h) in w.runtime.heads().iter() {
+        vensure_eq!(h.inbox().pending_count(), pending_before[k], "C09/failed-pass-left-effect/inbox", "head {:?}", k.head_id);
+    }
+    for wl in 0..w.n_wl() as u8 {
+        vensure!(state_fp(w.frontier(wl)) == fps_before[wl as usize], "C09/failed-pass-left-effect/state", "worldline {wl} (append refused at position {pos})");
+        vensure_eq!(w.frontier(wl).tick_history().len() as u64, w.len(wl), "C09/failed-pass-left-effect/tick-history", "worldline {wl}: frontier history entries vs committed ticks");
+    }
+    vensure_eq!(w.runtime.scheduler_fault_count(), faults_before + 1, "C09/fault-evidence/count", "exactly one fault record expected");
+    vensure!(w.runtime.is_runtime_faulted(), "C09/fault-scope/provenance-failure-not-runtime-scoped", "");
+    let again = w.pass();
+    vensure!(matches!(again, PassOutcome::Err(_)), "C09/quarantine/runtime-fault-did-not-block", "{:?}", again);
+    // trusted recovery, then the runtime continues against the real service
+    let fault = w.runtime.scheduler_faults().find(|f| matches!(f.status, warp_core::SchedulerFaultStatus::Active)).cloned().ok_or_else(|| Fail::new("C09/fault-evidence/missing", "no active fault"))?;
+    let auth = SchedulerFaultRecoveryAuthority::assume_runtime_owner();
+    w.runtime.resolve_scheduler_fault(&auth, fault.fault_id, [9; 32]).map_err(|e| Fail::new("C09/recovery/refused", format!("{e:?}")))?;
+    check_ok_pass(&mut w, "pass after recovery from a refused append")?;
+    for wl in 0..w.n_wl() as u8 {
+        let len = w.len(wl);
+        let r = w.provenance.replay_worldline_state_at(wl_id(wl), &w.initial[wl as usize], wt(len)).map_err(|e| Fail::new("C09/history-not-replayable-after-fault", format!("worldline {wl}: {e:?}")))?;
+        vensure!(state_fp(&r) == state_fp(w.frontier(wl)), "C09/replay-differs-from-frontier-after-fault", "worldline {wl}");
+    }
+    probe.class("kind:ProvenanceRefusesAppend");
+    probe.class(format!("position:{}of{}", pos.min(5), order.len().min(6)));
+    probe.class(format!("append-refused:earlier-heads-on-same-worldline={}", order[..pos].iter().filter(|k| k.worldline_id == fkey.worldline_id).count().min(2)));
+    if pos > 0 {
+        probe.nontrivial();
+    }
+    Ok(())
+}
+
 fn check9(_ctx: &Ctx, c: &Case9, probe: &mut Probe) -> Check {
+    if matches!(c.kind, FailKind::ProvenanceRefusesAppend) {
+        return check9_stale_provenance(c, probe);
+    }
     let mut w = build_world(&c.world);
     for (i, subs) in c.warmup.iter().enumerate() {
         submit_all(&mut w, &c.world, subs, 100 * i as u32, c.ticketed);
